@@ -67,6 +67,43 @@ fn threshold_history(s: &mut Scenario, r: &mut Rng) {
     s.probes = keys.iter().take(4).map(|k| { let mut p = *k; set_bit(&mut p, 255, !get_bit(k, 255)); K(p) }).collect();
 }
 
+/// An overlay chain in which ancestors delete keys that descendants write again (and vice versa),
+/// committed in order and then rolled back one commit at a time.
+fn overlay_chain_history(s: &mut Scenario, r: &mut Rng) {
+    let pn = r.range(4, 14) as usize;
+    let pool = gen_pool(r, pn);
+    let mut stamp = 700_000u32;
+    let mut val = |r: &mut Rng| { stamp += 1; VSpec { len: gen_len(r, 10), stamp } };
+    let mut sorted = |mut v: Vec<(K, Act)>| { v.sort_by(|a, b| a.0.cmp(&b.0)); v.dedup_by(|a, b| a.0 == b.0); v };
+    let mut steps = Vec::new();
+    let mut base: Vec<(K, Act)> = Vec::new();
+    for k in &pool { if r.chance(3, 4) { base.push((K(*k), Act::Write(Some(val(r))))); } }
+    if base.is_empty() { base.push((K(pool[0]), Act::Write(Some(val(r))))); }
+    steps.push(Step::Commit { batch: Batch { items: sorted(base.clone()), ..Default::default() }, nonblocking: false });
+    let mut present: std::collections::BTreeSet<Key> = base.iter().map(|x| x.0 .0).collect();
+    let depth = r.range(2, 4) as usize;
+    let mut parent: Option<usize> = None;
+    for id in 0..depth {
+        let mut items = Vec::new();
+        for k in &pool {
+            if !r.chance(1, 2) { continue; }
+            if present.contains(k) { if r.chance(1, 2) { items.push((K(*k), Act::Write(None))); present.remove(k); } else { items.push((K(*k), if r.chance(1, 4) { Act::Rtw(Some(val(r))) } else { Act::Write(Some(val(r))) })); } }
+            else { items.push((K(*k), Act::Write(Some(val(r))))); present.insert(*k); }
+        }
+        if items.is_empty() { items.push((K(pool[0]), Act::Write(Some(val(r))))); present.insert(pool[0]); }
+        let mut b = Batch { items: sorted(items), ..Default::default() };
+        for k in &pool { if r.chance(1, 3) { b.preserve.push(K(*k)); } }
+        steps.push(Step::OvBuild { id, parent, batch: b });
+        parent = Some(id);
+    }
+    for id in 0..depth { steps.push(Step::OvCommit { id, nonblocking: r.chance(1, 3) }); if r.chance(1, 6) { steps.push(Step::Reopen { opts: regen_opts(r, &s.opts, true) }); break; } }
+    for _ in 0..r.range(1, depth as u64 + 1) { steps.push(Step::Rollback { n: 1 }); }
+    s.steps = steps;
+    s.opts.rollback = true;
+    s.opts.max_rollback_log_len = s.opts.max_rollback_log_len.max(5);
+    s.probes.clear();
+}
+
 pub fn make(prop: &str, tier: Tier, seed: u64) -> Scenario {
     let mut r = Rng::new(seed ^ 0xA5A5);
     match prop {
@@ -140,6 +177,7 @@ pub fn make(prop: &str, tier: Tier, seed: u64) -> Scenario {
             let mut c = checks_all();
             c.witness = false; c.multiproof = false; c.proofs = false;
             let mut s = gen_history(prop, seed, p, c);
+            if r.chance(1, 6) { overlay_chain_history(&mut s, &mut r); }
             s.extra = json!({ "rollback_history_every": r.range(2, 5) });
             s
         }
@@ -160,6 +198,7 @@ pub fn make(prop: &str, tier: Tier, seed: u64) -> Scenario {
             let mut c = checks_all();
             c.multiproof = false;
             let mut s = gen_history(prop, seed, p, c);
+            if r.chance(1, 8) { overlay_chain_history(&mut s, &mut r); }
             s.extra = json!({ "rollback_history_every": 4 });
             s
         }
